@@ -29,10 +29,30 @@ def idName : Nat → String
   | 1 => "E1" | 2 => "C2" | 3 => "W3" | 4 => "J4" | 5 => "I5" | 6 => "WI6" | 7 => "JI7" | 8 => "S8" | 9 => "E9"
   | 12 => "WS12" | n => "?id" ++ toString n
 
+def clsName : ErrClass → String
+  | .error => "Error" | .typeError => "TypeError" | .referenceError => "ReferenceError"
+  | .rangeError => "RangeError" | .syntaxError => "SyntaxError" | .myErr => "MyErr"
+
+/-- Canonical name of a JS value from its key and the name of the Go error it holds. -/
+def keyName (k : JsKey) (inner : Option String) : String :=
+  match k with
+  | .prim i => "P" ++ toString i
+  | .obj 2 => "V2"
+  | .obj i => "O" ++ toString i
+  | .objU i => "U" ++ toString i
+  | .errObj i _ => "R" ++ toString i
+  | .goError i => "G" ++ toString i
+  | .valObj i => "V" ++ toString i
+  | .freshErr c _ => "new:" ++ clsName c
+  | .freshGoError => "ge(" ++ inner.getD "?" ++ ")"
+
 def goErrName : GoErr → String
   | .interruptedE 10 f => "intr(" ++ idName f.id ++ ")"
   | .stackOverflow 11 => "so"
   | .runtimeErr _ => "rt"
+  | .wrap 0 e => "w(" ++ goErrName e ++ ")"                               -- fmt.Errorf("rfw: %w", e) made in flight
+  | .wrapExc 0 k _ => "w(x(" ++ keyName k none ++ "))"
+  | .wrapExcGo 0 k _ i => "w(x(" ++ keyName k (some (goErrName i)) ++ "))"
   | e => idName e.id
 
 def valByName : String → Option JsVal
@@ -44,22 +64,11 @@ def valByName : String → Option JsVal
   | "G4" => some (.goError 4 (.join 4 (.plain 1) (.custom 2)))
   | "G6" => some (.goError 6 (.wrap 6 (.interrupted 5)))
   | "V1" => some (.valObj 1 (.plain 1))
+  | "U1" => some (.objU 1) | "U2" => some (.objU 2)
   | "V2" => some (.obj 2)                       -- {value: 42}: a `value` property that is not a Go error
   | _ => none
 
-def clsName : ErrClass → String
-  | .error => "Error" | .typeError => "TypeError" | .referenceError => "ReferenceError"
-  | .rangeError => "RangeError" | .syntaxError => "SyntaxError" | .myErr => "MyErr"
-
-def valName : JsVal → String
-  | .prim i => "P" ++ toString i
-  | .obj 2 => "V2"
-  | .obj i => "O" ++ toString i
-  | .errObj i _ => "R" ++ toString i
-  | .goError i _ => "G" ++ toString i
-  | .valObj i _ => "V" ++ toString i
-  | .freshErr c _ => "new:" ++ clsName c
-  | .freshGoError e => "ge(" ++ goErrName e ++ ")"
+def valName (v : JsVal) : String := keyName v.key (v.goErrValue.map goErrName)
 
 def pvName : Pv → String
   | .val v => "val(" ++ valName v ++ ")"
@@ -80,6 +89,8 @@ def parseFrame : String → Option Frame
   | "FC" => some .fc | "RFE" => some .rfe | "RFN" => some .rfn | "CT" => some .ct
   | "XFE" => some .xfe | "XFN" => some .xfn | "PX" => some .px | "GT" => some .gt
   | "FO" => some .fo | "DY" => some .dy | "RP" => some .rp | "PR" => some .pr
+  | "FCV" => some .fcv | "RFW" => some .rfw | "JI" => some .ji | "JG" => some .jg | "JGF" => some .jgf
+  | "JA" => some .ja | "JAW" => some .jaw
   | _ => none
 
 def parseChain (s : String) : Option (List Frame) :=
@@ -111,6 +122,15 @@ def logName (l : LogE) : String :=
   match l.kind with
   | .caught v => toString l.idx ++ "c=" ++ valName v
   | .fin => toString l.idx ++ "f"
+  | .iterReturn => toString l.idx ++ "r"
+  | .asyncReject v => toString l.idx ++ "a=" ++ valName v
+
+/-- async-function rejections are reported by the harness through the rejection tracker, not through `log`. -/
+def asyncRejects (lg : List LogE) : List JsVal :=
+  lg.filterMap (fun l => match l.kind with | .asyncReject v => some v | _ => none)
+
+def scriptLog (lg : List LogE) : List LogE :=
+  lg.filter (fun l => match l.kind with | .asyncReject _ => false | _ => true)
 
 def render (o : Out) : String :=
   let host := match o.host with
@@ -127,8 +147,15 @@ def render (o : Out) : String :=
   let top := match o.host with
     | .err (.exc ex) => topName ex.top
     | _ => "-"
-  "host=" ++ host ++ " is=" ++ isS ++ " as=" ++ asS ++ " top=" ++ top ++
-    " rej=[" ++ ",".intercalate (o.rej.map valName) ++ "] log=[" ++ ";".intercalate (o.log.map logName) ++ "]"
+  let es := match o.host with
+    | .err ev => if ev.errorPanics then "panic" else "ok"
+    | _ => "-"
+  let xc := match o.host with
+    | .err ev => "[" ++ ",".intercalate (ev.excVals.map valName) ++ "]"
+    | _ => "-"
+  "host=" ++ host ++ " is=" ++ isS ++ " as=" ++ asS ++ " top=" ++ top ++ " es=" ++ es ++ " xc=" ++ xc ++
+    " rej=[" ++ ",".intercalate ((asyncRejects o.log ++ o.rej).map valName) ++ "] log=[" ++
+    ";".intercalate ((scriptLog o.log).map logName) ++ "]"
 
 def runLine (line : String) : String :=
   match Proto.words line with
